@@ -228,10 +228,35 @@ def make_pattern(rng, family):
         order = list(range(len(P)))
         rng.shuffle(order)
         return [els[i] for i in order], P[order], info
+    if family == "bent":
+        # nearly, but not exactly, collinear: one atom 0.06-0.4 A off the line through the others (the orientation about the long
+        # axis is defined, but only just)
+        n = rng.randint(3, 5)
+        xs = [0.0]
+        for _ in range(n - 1):
+            xs.append(xs[-1] + rng.uniform(0.9, 1.8))
+        P = np.array([[x, 0, 0] for x in xs], float)
+        j = rng.randrange(n)
+        a = rng.uniform(0, 2 * math.pi)
+        off = rng.uniform(0.06, 0.4)
+        P[j, 1], P[j, 2] = off * math.cos(a), off * math.sin(a)
+        return [rng.choice(pool[:4]) for _ in range(n)], P, info
+    if family == "cs":
+        # a centre with two IDENTICAL and two different substituents (CH2FCl): the only symmetry is a mirror plane that swaps the
+        # twins - not a rotation - so of the two numberings of an occurrence exactly one is a proper image
+        lens = [rng.uniform(1.0, 1.9) for _ in range(3)]
+        dirs = np.array([[1, 1, 1], [1, -1, -1], [-1, 1, -1], [-1, -1, 1]], float) / math.sqrt(3)
+        twin, x, y = rng.sample(["H", "F", "Cl", "Br", "N", "O"], 3)
+        P = [[0, 0, 0], list(dirs[0] * lens[0]), list(dirs[1] * lens[0]), list(dirs[2] * lens[1]), list(dirs[3] * lens[2])]
+        els = ["C", twin, twin, x, y]
+        P = np.array(P, float)
+        # the twins often come first (the starting atom of a search is the first pattern atom)
+        order = [1, 2, 0, 3, 4] if rng.random() < 0.5 else rng.sample(range(5), 5)
+        return [els[i] for i in order], P[order], info
     raise ValueError(family)
 
 
-PATTERN_FAMILIES = ["single", "pair", "collinear", "planar", "planar", "asymmetric", "asymmetric", "c2", "c3", "c6", "td", "chiral", "chiral", "bigring", "bigring"]
+PATTERN_FAMILIES = ["cs", "bent", "single", "pair", "collinear", "planar", "planar", "asymmetric", "asymmetric", "c2", "c3", "c6", "td", "chiral", "chiral", "bigring", "bigring"]
 
 
 def effective_hints(P, hints):
@@ -453,6 +478,81 @@ def classify_tuple(pat_pos, X, atol, K):
     if rms > math.sqrt(3.0) * (atol + 1e-5 * (np.abs(X).max() + 1.0)) * 1.0001:
         return "NOT", mx, rms
     return "GRAY", mx, rms
+
+
+def _rot_u_to_v(u, v):
+    """Proper rotation taking unit vector u onto unit vector v (a half turn about any perpendicular axis when antiparallel)."""
+    c = float(np.dot(u, v))
+    if c > 1.0 - 1e-14:
+        return np.eye(3)
+    if c < -1.0 + 1e-14:
+        perp = np.cross(u, [1.0, 0.0, 0.0])
+        if np.linalg.norm(perp) < 1e-3:
+            perp = np.cross(u, [0.0, 1.0, 0.0])
+        return rotation_about(perp, math.pi)
+    ax = np.cross(u, v)
+    return rotation_about(ax, math.atan2(float(np.linalg.norm(ax)), c))
+
+
+def anchored_fit_dev(P, X, a1, a2, op):
+    """Three-point anchoring: atom a1 on atom a1, the axis a1->a2 onto the copy's axis, then the turn about that axis which
+    brings atom op's off-axis part into line.  Returns the per-atom distances (op=None: axis alignment only)."""
+    u = P[a2] - P[a1]
+    v = X[a2] - X[a1]
+    lu, lv = np.linalg.norm(u), np.linalg.norm(v)
+    if lu < 1e-12 or lv < 1e-12:
+        return None
+    v = v / lv
+    Rm = _rot_u_to_v(u / lu, v)
+    if op is not None:
+        p = Rm @ (P[op] - P[a1])
+        x = X[op] - X[a1]
+        pp, xp = p - np.dot(p, v) * v, x - np.dot(x, v) * v
+        if np.linalg.norm(pp) < 1e-9 or np.linalg.norm(xp) < 1e-9:
+            return None
+        ang = math.atan2(float(np.dot(np.cross(pp, xp), v)), float(np.dot(pp, xp)))
+        Rm = rotation_about(v, ang) @ Rm
+    Y = (P - P[a1]) @ Rm.T + X[a1]
+    return np.linalg.norm(Y - X, axis=1)
+
+
+def robust_must(P, X, atol, c=0.8, max_n=8):
+    """'Well inside the tolerance' without reference to WHICH anchors an implementation uses: every pair distance agrees within
+    c*atol, and under EVERY three-point anchoring (every ordered axis pair, every orientation atom off that axis) every atom
+    lands within c*atol of its place.  Any search that anchors on three atoms and accepts up to atol per coordinate, with a
+    pair-distance prefilter of atol, must report such a copy whatever hints it was given.  Bounded to small patterns."""
+    P = np.asarray(P, float)
+    X = np.asarray(X, float)
+    n = len(P)
+    if n < 2 or n > max_n:
+        return False
+    lim = c * atol
+    dP = np.sqrt(((P[:, None, :] - P[None, :, :]) ** 2).sum(-1))
+    dX = np.sqrt(((X[:, None, :] - X[None, :, :]) ** 2).sum(-1))
+    if np.abs(dP - dX).max() > lim:
+        return False
+    for a1 in range(n):
+        for a2 in range(n):
+            if a1 == a2:
+                continue
+            ax = P[a2] - P[a1]
+            L = np.linalg.norm(ax)
+            rel = P - P[a1]
+            h = np.linalg.norm(rel - np.outer(rel @ ax / L ** 2, ax), axis=1)
+            if n == 2 or h.max() < 1e-6:
+                d = anchored_fit_dev(P, X, a1, a2, None)
+                if d is None or d.max() > lim:
+                    return False
+                continue
+            if h.max() < 0.2:
+                return False          # nearly collinear: the orientation anchor is ill-conditioned, no robust verdict
+            for op in range(n):
+                if op in (a1, a2) or h[op] < 1e-6:
+                    continue
+                d = anchored_fit_dev(P, X, a1, a2, op)
+                if d is None or d.max() > lim:
+                    return False
+    return True
 
 
 def classify_groups(cands, pat_pos, atol, K):
